@@ -560,13 +560,35 @@ def run(ctx, broken):
                                implementation=obs[i], n_diverging=len(mism)))
     elif mism:
         ctx.cov["note"] = "model and implementation diverge on %d cases (violations reported by the direct oracle)" % len(mism)
+    stress(ctx, broken)
     e2e(ctx, broken)
     if not ctx.quick:
         race_run(ctx, cases[:6000])
 
 
+def stress(ctx, broken):
+    """Long streams of tiny batches through the parallel worker pool: every batch number 0..n-1 exactly once
+    (a worker pool that loses / duplicates a batch only under a very narrow interleaving shows on long streams only)."""
+    rounds = 40 if ctx.quick else 300
+    cases = [dict(op="stress", streams=[], data=[], size=20000, nw=nw, mod=rounds // 2, mod2=0, yield_=0) for nw in (4, 8)]
+    for c in cases:
+        c["yield"] = c.pop("yield_")
+    obs = ctx.vh_robust("c03", cases, timeout=600, one_timeout=300)
+    tot = 0
+    for c, o in zip(cases, obs):
+        tot += o.get("rounds", 0) * c["size"]
+        if o.get("kind") != "stress" or o.get("bad_rounds", 0) > 0:
+            ctx.violation("stress_workers_%d" % c["nw"], dict(property="C03", kind="direct-oracle", case=c, implementation=o,
+                          expected="every batch number 0..%d delivered exactly once by MakeIWorker with %d workers, in each of the %d rounds" % (c["size"] - 1, c["nw"], c["mod"]),
+                          note="schedule dependent: replay runs the same stress again"))
+    ctx.cov["stress_batches_through_worker_pool"] = tot
+
+
 def replay(ctx, rp):
     c = rp["case"]
+    if c.get("op") == "stress":
+        print("replay:", json.dumps(c), "->", json.dumps(ctx.vh_robust("c03", [c], timeout=600, one_timeout=300)[0]))
+        return
     if rp.get("kind") == "e2e":
         bindir, err = ctx.build_cmds([c["cmd"]])
         obs, why = e2e_run(ctx, bindir, rp["sets"], c, os.path.join(vlib.BUILD, "c03_e2e_replay"))
